@@ -1,6 +1,7 @@
 (** C06 — approved invoices are never overpaid in flight; unbacked payments are refused.
     Statements only; proofs are in Proofs/PaymentsProofs.v. *)
 From VLS Require Import Base.U64 Model.Payments Proofs.PaymentsProofs.
+From VLS Require Gen.PaymentsGen Proofs.PaymentsGenProofs.
 
 (** For every number of channels, every policy allowance and every history of commitment
     updates (counterparty signing, holder validation, revocation) on any of the channels,
@@ -56,6 +57,21 @@ Proof.
     intros _. apply (unbacked_refused nch mf mp s ch (Some c) None h Ev Hi Hk).
 Qed.
 Print Assumptions C06_unbacked_refused.
+
+(** The balance rule all of the above rests on is the one in the source: Gen/PaymentsGen.v is the
+    statement-by-statement translation of [SimpleValidator::validate_payment_balance]
+    (vls-core/src/policy/simple_validator.rs, regenerated on every run by tools/gen_rustfn.py), and
+    under the default policy filter it answers Ok exactly when the model's [balance_ok] holds - in both
+    build profiles, without panic or wrap, whenever [outgoing * 100] and
+    [incoming + approved + allowance] fit into u64 (msat amounts far beyond the supply of bitcoin). *)
+Theorem C06_balance_rule_is_source :
+  forall (prof : profile) (max_fee_msat max_fee_pct incoming_msat outgoing_msat : N) (invoiced : option N),
+    PaymentsGenProofs.amounts_fit max_fee_msat incoming_msat outgoing_msat invoiced ->
+    PaymentsGen.gen_validate_payment_balance prof PaymentsGenProofs.strict_filter
+      max_fee_msat max_fee_pct incoming_msat outgoing_msat invoiced =
+    Val (balance_ok max_fee_msat max_fee_pct incoming_msat outgoing_msat invoiced).
+Proof. exact PaymentsGenProofs.gen_balance_is_model. Qed.
+Print Assumptions C06_balance_rule_is_source.
 
 (** Non-vacuity: an approved 100 000 sat payment split over two channels up to exactly the
     approved amount plus the allowance, one more satoshi refused, a restart in between. *)
